@@ -304,21 +304,24 @@ def drawer_section(draw):
 
 
 @st.composite
-def pool_pel(draw, creator=None, eid=None):
+def pool_pel(draw, creator=None, eid=None, code_hint=None):
     if creator is None:
         creator = draw(st.sampled_from([ord('O'), ord('O'), ord('O'), ord('B'), ord('B'), ord('K'), ord('M'), ord('M'),
                                          ord('H')]))
     kind = draw(st.sampled_from(['rich', 'rich', 'rich', 'damaged', 'plugin-heavy']))
     secs = []
+    code = None
     served = creator in (ord('B'), ord('K'))        # creators with fixture SRC / call-out parsers
-    if kind == 'plugin-heavy' or draw(st.booleans()) or (served and draw(st.integers(0, 3)) != 0):
+    if code_hint or kind == 'plugin-heavy' or draw(st.booleans()) or (served and draw(st.integers(0, 3)) != 0):
         if creator == ord('O'):
             # BMC PELs: ordinary and hostboot (BC) codes that share the component byte, with and without a parser
             code = draw(st.sampled_from(['BD8D2600', 'BC8A2601', 'BD8DE510', 'BC8AE510', 'BD8D2601', '11002600',
-                                         'BD8D7700', 'BC8A7701']))
+                                         'BD8D7700', 'BC8A7701', 'BD8DE510', 'BC8AE510', 'BD8D2600', 'BC8A2601']))
         else:
             code = draw(st.sampled_from(['BD8D2600', 'BD8D2601', 'BD8D2602', '11002600', 'BC8A8A01', 'B7001234',
                                          'BD00E510', 'BC8AE510']))
+        if code_hint:
+            code = code_hint
         cl = None
         if draw(st.booleans()) or served:
             cs = []
@@ -374,7 +377,7 @@ def pool_pel(draw, creator=None, eid=None):
             cc['trunc'] %= max(len(blob), 1)
         blob = damage(cc)
     comps = sorted({s['comp'] for s in secs if s['k'] in ('UD', 'ED')})
-    return {'blob': blob, 'creator': chr(creator), 'comps': comps, 'kind': kind, 'eid': pel['ph']['eid'],
+    return {'blob': blob, 'creator': chr(creator), 'comps': comps, 'kind': kind, 'eid': pel['ph']['eid'], 'code': code,
             'fixture_free': chr(creator) in 'MH' and not any(x['k'] == 'ED' for x in secs)}
 
 
@@ -452,15 +455,22 @@ class HistoryMachine(RuleBasedStateMachine):
     def add_sibling(self, i, data):
         # another log of the same creator (same parser modules, tables and name files, other values)
         same_id = data.draw(st.booleans())
-        self.pool.append(data.draw(pool_pel(creator=ord(self.pool[i]['creator']),
+        # ... and, for reference codes, the counterpart that names the same component through the other route
+        # (ordinary BD8D.... <-> hostboot BC8A....)
+        hint = None
+        c = self.pool[i].get('code')
+        if c and c[:4] in ('BD8D', 'BC8A') and data.draw(st.booleans()):
+            hint = ('BC8A' if c[:4] == 'BD8D' else 'BD8D') + c[4:]
+        self.pool.append(data.draw(pool_pel(creator=ord(self.pool[i]['creator']), code_hint=hint,
                                             eid=self.pool[i].get('eid') if same_id else None)))
         return len(self.pool) - 1
 
     @rule(idx=st.lists(pels, min_size=1, max_size=3))
     def to_json(self, idx):
-        # file names repeat from step to step (slot names), so a later log can land on the output name of an
-        # earlier one when the entry ids agree
-        files = [['slot%d' % k, self.pool[i]['blob']] for k, i in enumerate(idx)]
+        # a log is stored under a name made of its entry id (as the BMC does), so a later log lands on the output
+        # name of an earlier one exactly when the entry ids agree
+        files = sorted({'log_%08X' % (self.pool[i].get('eid') or 0): self.pool[i]['blob'] for i in idx}.items())
+        files = [list(f) for f in files]
         self.step(['json', files], 'peltool -j -o <out> over PELs %r' % idx)
         for i in idx:
             p = self.pool[i]
@@ -583,9 +593,9 @@ def _machine_shard(args):
 
 @PROP.custom('histories')
 def histories(ctx):
-    n = 320 if ctx.tier == 'quick' else 4800
+    n = 560 if ctx.tier == 'quick' else 4800
     steps = 12 if ctx.tier == 'quick' else 30
-    shards = 8 if ctx.tier == 'quick' else 16
+    shards = 14 if ctx.tier == 'quick' else 16
     per = [n // shards + (1 if i < n % shards else 0) for i in range(shards)]
     jobs = [(ctx.tier, ctx.seed, i, per[i], steps) for i in range(shards) if per[i]]
     total = FacetResult('histories')
